@@ -208,21 +208,36 @@ def free_names(tree, acc=None):
 def gen_case(rng, max_depth=4, n_rows=3, p_powc2=0.05, p_replin=0.04):
     """tree with 1..5 free parameters (scrambled names), the parameter table and the data rows"""
     for _ in range(50):
-        g = DGen(rng, max_depth=max_depth, p_powc2=p_powc2, p_replin=p_replin, n_names=rng.choice([1, 2, 2, 3, 3, 4, 5, 6]))
+        target = rng.choice([1, 1, 2, 2, 2, 3, 3, 4, 5])
+        g = DGen(rng, max_depth=max_depth, p_powc2=p_powc2, p_replin=p_replin, n_names=min(10, target + rng.choice([0, 0, 1, 2])))
         tree = g.real(max_depth)
-        if rng.random() < 0.5:
-            # two sub-formulas combined: more parameters per case
+        if rng.random() < 0.4:
+            # two sub-formulas combined
             other = g.real(max_depth - 1)
             tree = g.node(['Bin', rng.choice(['Plus', 'Minus', 'Times'])], [tree, other], 'real')
         fr = free_names(tree)
-        if not fr:
-            # make it depend on at least one free parameter
-            nm = rng.choice(g.names)
-            if nm in g.betas and g.betas[nm]['fixed']:
-                continue
+        guard = 0
+        while len(fr) < target and guard < 12:
+            # one more free parameter, entering through a smooth term
+            guard += 1
+            cand = [n for n in g.names if n not in fr and not g.betas.get(n, {}).get('fixed')]
+            if not cand:
+                break
+            nm = rng.choice(cand)
             g.betas.setdefault(nm, {'value': val(dy(rng, nonzero=True)), 'fixed': False, 'positive': False, 'lb': None, 'ub': None})
             b = g.node(['Beta', nm, False])
-            tree = g.node(['Bin', 'Plus'], [tree, g.node(['Bin', 'Times'], [b, g.small(max_depth - 1)])])
+            kind = rng.random()
+            if kind < 0.3:
+                term = g.node(['Bin', 'Times'], [b, g.var()])
+            elif kind < 0.5:
+                term = g.node(['Un', 'Exp'], [g.node(['Bin', 'Times'], [b, g.small(1)])])
+            elif kind < 0.65:
+                term = g.node(['Bin', 'Times'], [b, b])
+            elif kind < 0.8:
+                term = g.node(['Un', rng.choice(['Sin', 'Cos'])], [g.node(['Bin', 'Plus'], [b, g.leaf_real()])])
+            else:
+                term = g.node(['Bin', 'Times'], [b, g.small(2)])
+            tree = g.node(['Bin', rng.choice(['Plus', 'Plus', 'Minus', 'Times'])], [tree, term], 'real')
             fr = free_names(tree)
         if 1 <= len(fr) <= 5:
             # only the parameters that occur in the tree are declared
